@@ -50,6 +50,16 @@ class ActionTable:
         self.env = env
         self.cfg = cfg
         self.flat = bool(env.flat_actions)
+        # the simulator decodes through its OWN space object: asking the
+        # environment's space before every step would keep refreshing
+        # whatever that object remembers between calls
+        self.decoder = env.action_space
+        if not self.flat:
+            try:
+                from nasim.envs.action import ParameterisedActionSpace
+                self.decoder = ParameterisedActionSpace(env.scenario)
+            except Exception:
+                self.decoder = env.action_space
         self.by_key = {}       # (kind, target, name) -> plain encoding
         self.keys = []
         self.by_target = {}    # target -> [key]
@@ -100,7 +110,15 @@ class ActionTable:
                 yield ("privesc", (s, h), name), \
                     [1, s - 1, h, osi, 0, cfg.processes.index(p["process"])]
 
-    def encode(self, plain, enc):
+    def encode(self, plain, enc, wrap=0):
+        if not self.flat and wrap and enc != "action":
+            # the host parameter is documented to wrap around the subnet's
+            # size: another member of the space that names the same host
+            plain = list(plain)
+            size = self.cfg.subnets[int(plain[1]) + 1]
+            cands = list(range(int(plain[2]) % size,
+                               max(self.cfg.subnets[1:]), size))
+            plain[2] = cands[wrap % len(cands)]
         if self.flat:
             if enc == "int":
                 return int(plain)
@@ -129,11 +147,19 @@ class ActionTable:
             if enc == "action":
                 return self.env.action_space.get_action(list(plain))
             if enc == "buffer":
-                # one caller-owned array reused (mutated in place) for every
-                # action, as an agent with a preallocated buffer would do
+                # one caller-owned array reused for every action, as an agent
+                # with a preallocated buffer would do; the agent writes only
+                # the parameters that differ from what it wrote last time
+                # (it owns the array: nobody else writes into it)
                 if getattr(self, "_buffer", None) is None:
                     self._buffer = np.zeros(len(plain), dtype=np.int64)
-                self._buffer[:] = plain
+                    self._buffer[:] = plain
+                else:
+                    for i, (new, old) in enumerate(zip(plain,
+                                                       self._buffer_wrote)):
+                        if int(new) != int(old):
+                            self._buffer[i] = int(new)
+                self._buffer_wrote = [int(v) for v in plain]
                 return self._buffer
         raise ValueError(enc)
 
@@ -156,6 +182,15 @@ class Swarm:
         self.p_reconstruct = rng.choice([0.0, 0.0, 0.01, 0.03])
         self.exotic_enc = bool({"C10", "C11"} & set(props)) or \
             rng.random() < 0.15
+        r2 = core.stream(rng.getrandbits(48), "swarm2")
+        # an agent usually sticks to one way of encoding its actions
+        self.pref_enc = r2.choice([None, None, "buffer", "ndarray", "int64",
+                                   "action"])
+        if not self.exotic_enc and r2.random() < 0.2:
+            self.exotic_enc = True
+        self.p_reject = r2.choice([0.0, 0.0, 0.02, 0.05])
+        self.p_rollout = r2.choice([0.0, 0.02, 0.05])
+        self.p_sibling = r2.choice([0.0, 0.0, 0.01, 0.03])
 
 
 class EnvSim:
@@ -207,6 +242,11 @@ class EnvSim:
             self.seam = None
             self.rnd = seams.NullScript()
         self.n_since_reset = 0
+        # a "plain agent" run: the only calls the environment ever sees are
+        # reset and step (no look-ahead twins or companions of the oracle,
+        # no queries) - what the object remembers between two steps is then
+        # never refreshed by anything else
+        self.quiet = (seed % 5 == 1) and "C13" not in self.props
         self.ledger = oracles.EpisodeLedger(self.cfg)
         self.oracle = oracles.Oracles(self)
         self.episode_over = False
@@ -302,6 +342,7 @@ class EnvSim:
         self.gstep_ops = []
         self.__dict__.pop("_pre_cache", None)
         self.oracle = oracles.Oracles(self)
+        seams.collect_now()      # the replaced environment dies here
         self._do_reset(first=False)
 
     def _make_shadow(self, spec):
@@ -410,7 +451,7 @@ class EnvSim:
             if plain is None:
                 return None, None
         try:
-            obj = self.env.action_space.get_action(
+            obj = self.table.decoder.get_action(
                 plain if self.table.flat else list(plain))
         except Exception as e:
             raise SutError("get_action", e)
@@ -433,6 +474,8 @@ class EnvSim:
 
     def exec_op(self, op):
         kind = op["op"]
+        if getattr(self, "halted", False):
+            return
         self._op = op
         self.ops.append(op)     # the failing op is the last one of the trace
         self.counters.hit("op." + kind)
@@ -467,6 +510,10 @@ class EnvSim:
             self.oracle = oracles.Oracles(self)
             self.cur_sid = self.keep_state(self.env.current_state)
             self.counters.hit("fault.restart.deepcopy_fork")
+        elif kind == "reject":
+            self._exec_reject(op)
+        elif kind == "sibling":
+            self._exec_sibling(op)
         elif kind == "marathon":
             self._exec_marathon(op)
         elif kind == "epfreq":
@@ -502,8 +549,13 @@ class EnvSim:
 
     def _exec_gstep(self, op):
         src = op["src"]
-        state = self.env.current_state if src == "cur" else \
-            self.states.get(src)
+        if src == "last":
+            # rollout: the state the previous look-ahead returned, which the
+            # caller keeps in one variable (nothing else refers to it)
+            state = getattr(self, "_last_out", None)
+        else:
+            state = self.env.current_state if src == "cur" else \
+                self.states.get(src)
         if state is None:
             self.counters.hit("replay.skipped_gstep")
             return
@@ -522,7 +574,29 @@ class EnvSim:
         # the same outputs
         snap = (rec["post_t"].tobytes(), rec["obs2d"].tobytes(),
                 float(rec["reward"]), bool(rec["done"]), rec["info_snap"])
-        if src == "cur":
+        if "C13" in self.props and src != "cur" and len(self.ops) % 2 == 0:
+            # a generative step is a function of the state's VALUE: an equal
+            # copy of the state (a new object) must give the same outputs
+            try:
+                st2 = state.copy()
+            except Exception as e:
+                raise SutError("generative_step", e)
+            (ns2, obs2, r2, d2, i2), _, _ = self._gstep(
+                st2, x, self._draws_for(op))
+            snap2 = (ns2.tensor.tobytes(), obs2.tensor.tobytes(), float(r2),
+                     bool(d2), oracles._canon_info(i2))
+            self.counters.hit("probe.gstep_on_equal_copy_compared")
+            names = ("next state", "observation", "reward", "terminal flag",
+                     "info")
+            diff = [n for n, a, b in zip(names, snap, snap2) if a != b]
+            if diff:
+                raise Violation(
+                    "C13.pure", "the generative step on a state and on an "
+                    "equal copy of it (State.copy(), same action, same draw)"
+                    " give different results: the outcome depends on "
+                    "something other than its arguments' values",
+                    differs=diff, action=op["a"])
+        if src in ("cur", "last"):
             rkey = None
         else:
             rkey = (src, tuple(map(str, op["a"])), tuple(op["u"]))
@@ -545,7 +619,148 @@ class EnvSim:
                      obs=rec["obs2d"].tobytes(), reward=float(rec["reward"]),
                      done=bool(rec["done"]),
                      info=oracles._canon_info(rec["info"]))
-        self.keep_state(rec["next_state"])
+        if op.get("chain"):
+            self._last_out = rec["next_state"]
+        elif op.get("drop"):
+            pass         # the caller only looked at the flags / the reward
+        else:
+            self.keep_state(rec["next_state"])
+
+    # ------------------------------------------------------------------
+    # fault ops: rejected calls, rollouts, sibling environments
+    # ------------------------------------------------------------------
+    REJECT_FLAT = ["index_n", "index_big", "float", "float64", "none", "str",
+                   "in_list"]
+    REJECT_PARAM = ["floats", "float_array", "short", "type6", "none",
+                    "scalar", "os_oob"]
+    REJECT_SEEDS = ["neg", "float", "str", "int64"]
+
+    def _gen_reject(self, fx):
+        """A call the API rejects (wrongly encoded / out-of-range action, bad
+        reset seed); the caller catches the exception and carries on with
+        the same environment."""
+        call = fx.choice(["step", "step", "step", "gstep", "reset"])
+        if call == "reset":
+            return {"op": "reject", "call": "reset",
+                    "how": fx.choice(self.REJECT_SEEDS)}
+        how = fx.choice(self.REJECT_FLAT if self.table.flat
+                        else self.REJECT_PARAM)
+        k = fx.choice(self.table.keys)
+        if how in ("short", "os_oob") and k[0] != "exploit":
+            how = "type6"      # scans never read the other parameters
+        return {"op": "reject", "call": call, "how": how,
+                "a": [k[0], list(k[1]), k[2]]}
+
+    def _reject_arg(self, op):
+        how = op["how"]
+        if op["call"] == "reset":
+            return {"neg": -1, "float": 1.5, "str": "abc",
+                    "int64": np.int64(5)}[how]
+        a = op["a"]
+        plain = self.table.by_key.get((a[0], (int(a[1][0]), int(a[1][1])),
+                                       a[2]))
+        if plain is None:
+            return None
+        if self.table.flat:
+            n = int(self.env.action_space.n)
+            return {"index_n": n, "index_big": n + 7, "float": float(plain),
+                    "float64": np.float64(plain), "none": None,
+                    "str": str(plain), "in_list": [int(plain)]}[how]
+        vec = [int(v) for v in plain]
+        return {"floats": [float(v) for v in vec],
+                "float_array": np.array(vec, dtype=np.float64),
+                "short": vec[:3], "type6": [6] + vec[1:], "none": None,
+                "scalar": int(vec[0]),
+                "os_oob": vec[:3] + [len(self.cfg.os) + 3] + vec[4:]}[how]
+
+    def _exec_reject(self, op):
+        env = self.env
+        arg = self._reject_arg(op)
+        if arg is None and op["how"] != "none":
+            return
+        self.counters.hit("fault.rejected_call." + op["call"])
+        try:
+            if op["call"] == "reset":
+                env.reset(seed=arg)
+            elif op["call"] == "step":
+                self.rnd.push([0.5, 0.5])
+                env.step(arg)
+            else:
+                self.rnd.push([0.5, 0.5])
+                env.generative_step(env.current_state, arg)
+        except Exception:
+            self.counters.hit("probe.call_rejected")
+            return
+        # the call was accepted: the history has left the documented domain
+        # (nothing is known about what the call meant) - no more verdicts
+        self.counters.hit("reject.accepted_run_halted")
+        self.halted = True
+
+    def _gen_rollout(self, wl, fl, fx, swarm):
+        """s = generative_step(s, a)[0] a few times in a row: every state
+        but the last one is dropped as soon as its successor exists."""
+        self.counters.hit("fault.lookahead_rollout")
+        src = "cur"
+        for i in range(fx.randint(3, 8)):
+            state = self.env.current_state if src == "cur" else \
+                getattr(self, "_last_out", None)
+            if state is None:
+                break
+            status = read_status(state, self.cfg)
+            k = self._pick_action(wl, swarm, status)
+            hist = getattr(self, "_rollout_keys", [])
+            if i >= 2 and fx.random() < 0.4:
+                k = hist[-2]     # try again what was tried before the last
+            self._rollout_keys = (hist + [k])[-4:] if i else [k]
+            a = self._act_of_key(k)
+            self.exec_op({"op": "gstep", "src": src, "chain": True,
+                          "a": [k[0], list(k[1]), k[2]],
+                          "u": self._gen_draws(fl, swarm, a)})
+            src = "last"
+
+    def _gen_scan_ahead(self, wl, fl, fx, swarm):
+        """One-step look-ahead over several candidate actions from the
+        current state ('what would this action give me?'); every returned
+        state is dropped at once."""
+        self.counters.hit("fault.lookahead_sweep")
+        status = read_status(self.env.current_state, self.cfg)
+        keys = []
+        k = self._productive(wl, status)
+        if k is not None:
+            keys.append(k)
+        for _ in range(fx.randint(2, 5)):
+            keys.append(self._pick_action(wl, swarm, status))
+        fx.shuffle(keys)
+        for k in keys:
+            a = self._act_of_key(k)
+            # (never a draw that equals the probability: a tie has measure
+            # zero and is outside what C07 states)
+            u = [float(a.prob / 2).hex()] * 3 \
+                if (fx.random() < 0.6 and a.prob > 0) else \
+                self._gen_draws(fl, swarm, a)
+            self.exec_op({"op": "gstep", "src": "cur", "drop": True,
+                          "a": [k[0], list(k[1]), k[2]], "u": u})
+
+    def _exec_sibling(self, op):
+        """Another environment comes to life in the same process: built from
+        a variant of this run's scenario (same name, same vector layout,
+        other numbers), played for a few steps, kept or dropped."""
+        rng = core.stream(op["v"], "sibling")
+        spec = configs.variant_spec(self.spec, rng, self.cfg.name,
+                                    keep_order=True)
+        if spec is None:
+            return
+        self.counters.hit("fault.foreign_activity.sibling_env")
+        sib = play_sibling(spec, self.modes, rng, self.rnd)
+        if sib is not None and rng.random() < 0.5:
+            self._siblings = getattr(self, "_siblings", []) + [sib]
+        else:
+            sib = None
+            seams.collect_now()
+        if "C11" in self.props:
+            from . import actionspace
+            actionspace.check_decode_sample(self.oracle)
+            actionspace.check_rebuild(self.oracle)
 
     def _exec_step(self, op):
         env = self.env
@@ -569,7 +784,9 @@ class EnvSim:
                 # on the pivot / target instead of USER
                 x = obj = self._custom_root(obj)
             else:
-                x = self.table.encode(plain, enc)
+                x = self.table.encode(plain, enc, op.get("wrap", 0))
+                if op.get("wrap") and not self.table.flat:
+                    self.counters.hit("fault.encoding.wrapped_host_param")
             self.counters.hit("fault.encoding." + enc)
         if self.episode_over:
             self.counters.hit("fault.post_terminal")
@@ -591,7 +808,44 @@ class EnvSim:
     def generate(self, wl, fl, swarm):
         """Generate and execute ops.  wl: workload stream, fl: fault stream."""
         cfg = self.cfg
+        fx = core.stream(self.seed, "faults2")
+        follow = None
+        if self.quiet:
+            import copy
+            swarm = copy.copy(swarm)
+            swarm.p_gstep = swarm.p_query = swarm.p_rollout = 0.0
+            swarm.p_sibling = 0.0
+            self.counters.hit("workload.plain_agent_run")
         for _ in range(swarm.n_ops):
+            if getattr(self, "halted", False):
+                break
+            if follow is not None:
+                # the caller's retry of a rejected call, properly encoded
+                op, follow = follow, None
+                self.exec_op(op)
+                continue
+            rr = fx.random()
+            if rr < swarm.p_reject:
+                op = self._gen_reject(fx)
+                self.exec_op(op)
+                if op.get("a") is not None and fx.random() < 0.7:
+                    follow = {"op": "gstep" if op["call"] == "gstep"
+                              else "step", "a": op["a"],
+                              "u": self._gen_draws(fl, swarm, None)}
+                    if follow["op"] == "gstep":
+                        follow["src"] = "cur"
+                continue
+            if rr < swarm.p_reject + swarm.p_rollout and \
+                    not self.episode_over:
+                if fx.random() < 0.5:
+                    self._gen_rollout(wl, fl, fx, swarm)
+                else:
+                    self._gen_scan_ahead(wl, fl, fx, swarm)
+                continue
+            if rr < swarm.p_reject + swarm.p_rollout + swarm.p_sibling:
+                self.exec_op({"op": "sibling",
+                              "v": fx.randint(0, 2 ** 31 - 1)})
+                continue
             if self.shadow is not None and wl.random() < 0.25:
                 g = self.shadow._gen_step(wl, fl, swarm)
                 g["op"] = "shadow"
@@ -763,8 +1017,14 @@ class EnvSim:
                     "u": self._gen_draws(fl, swarm, a)}
         if self.table.flat:
             enc = wl.choice(FLAT_ENCODINGS) if swarm.exotic_enc else "int"
+            if swarm.exotic_enc and swarm.pref_enc in FLAT_ENCODINGS and \
+                    wl.random() < 0.7:
+                enc = swarm.pref_enc
         else:
             enc = wl.choice(PARAM_ENCODINGS) if swarm.exotic_enc else "list"
+            if swarm.exotic_enc and swarm.pref_enc in PARAM_ENCODINGS and \
+                    wl.random() < 0.7:
+                enc = swarm.pref_enc
             if wl.random() < (0.12 if self.props & {"C01", "C11", "C09", "C06"}
                                else 0.03):
                 vec = self._noop_vector(wl, status)
@@ -774,6 +1034,9 @@ class EnvSim:
                             "u": self._gen_draws(fl, swarm, None)}
         op = {"op": "step", "a": [k[0], list(k[1]), k[2]], "enc": enc,
               "u": self._gen_draws(fl, swarm, a)}
+        if not self.table.flat and swarm.exotic_enc and \
+                core.h64(f"{self.seed}|wrap|{len(self.ops)}") % 4 == 0:
+            op["wrap"] = 1 + core.h64(f"{self.seed}|w|{len(self.ops)}") % 5
         if "C13" in self.props and fl.random() < 0.3:
             # planner pattern: look two steps ahead from the current state
             # (a productive action, then an action from the resulting
@@ -899,8 +1162,13 @@ def run_one(prop, tier, root, idx, extra):
     shadow = None
     if cfgr.random() < 0.25:
         shadow = shadow_spec_for(spec)
+    prelude = None
+    c2 = core.stream(seed, "cfg2")
+    if c2.random() < 0.12:
+        prelude = [c2.randint(0, 2 ** 31 - 1)
+                   for _ in range(c2.choice([1, 1, 2]))]
     return execute(spec, modes, props, seed, tier, res,
-                   gen=(wl, fl, swarm), shadow=shadow)
+                   gen=(wl, fl, swarm), shadow=shadow, prelude=prelude)
 
 
 def shadow_spec_for(spec):
@@ -914,10 +1182,9 @@ def shadow_spec_for(spec):
         return {"kind": "genbench", "name": spec["name"],
                 "seed": spec["seed"] + 1}
     if spec["kind"] == "yaml":
-        import yaml
         from . import docgen
         try:
-            doc = yaml.safe_load(spec["text"])
+            doc = configs.parse_doc(spec["text"])
             hosts = doc["host_configurations"]
             keys = list(hosts)
             if len(keys) < 2:
@@ -934,12 +1201,55 @@ def shadow_spec_for(spec):
     return None
 
 
+def play_sibling(spec, modes, rng, rnd=None):
+    """Build a sibling environment and play a few random actions in it.
+    Nothing it does is judged; whatever it raises is ignored."""
+    from nasim.envs import NASimEnv
+    keep = np.random.get_state()
+    try:
+        scen, _ = configs.build(spec, want_cfg=False)
+        m = dict(modes)
+        if rng.random() < 0.3:
+            m["flat_actions"] = not m["flat_actions"]
+        env = NASimEnv(scen, **m)
+        env.reset()
+        for _ in range(rng.randint(0, 6)):
+            if rnd is not None:
+                rnd.push([rng.random(), rng.random()])
+            env.action_space.seed(rng.randint(0, 2 ** 31 - 1))
+            out = env.step(env.action_space.sample())
+            if out[2] or out[3]:
+                env.reset()
+        return env
+    except Exception:
+        return None
+    finally:
+        np.random.set_state(keep)
+
+
 def execute(spec, modes, props, seed, tier, res, gen=None, ops=None,
-            shadow=None):
+            shadow=None, prelude=None):
     sim = None
     try:
         try:
+            held = []
+            for v in (prelude or []):
+                # earlier life of the process: an environment of a variant
+                # scenario (same names, possibly listed in another order) was
+                # built and used before this run's environment exists
+                rng = core.stream(v, "prelude")
+                vs = configs.variant_spec(spec, rng, None, keep_order=False)
+                if vs is not None:
+                    sib = play_sibling(vs, modes, rng)
+                    if rng.random() < 0.5:
+                        held.append(sib)
+                    sib = None
+                    seams.collect_now()
             sim = EnvSim(spec, modes, props, seed, tier, shadow_spec=shadow)
+            sim._prelude_held = held
+            if prelude:
+                sim.counters.hit("fault.foreign_activity.predecessor_env",
+                                 len(prelude))
             if gen is not None:
                 sim.generate(*gen)
             else:
@@ -969,7 +1279,7 @@ def execute(spec, modes, props, seed, tier, res, gen=None, ops=None,
         res["classes"] = sorted(sim.classes)
         res["trace"] = {"spec": spec, "modes": modes, "seed": seed,
                         "props": sorted(props), "ops": sim.ops,
-                        "shadow": shadow}
+                        "shadow": shadow, "prelude": prelude}
     else:
         res["ops"] = 0
         res["steps"] = 0
